@@ -4,6 +4,8 @@
     warn_redundant_casts, strict_equality) over batches of generated packages; any error is a violation, attributed by
     error code and artefact kind.  mypy is used as the project-defined acceptance oracle over *observed generator
     outputs*, like compile() and tomllib elsewhere.
+(c) every declared default of a model attribute / endpoint parameter conforms at run time to that attribute's /
+    parameter's annotation (exact types: a float under `int` is a mismatch).
 (b) M-TYPE: every value produced by from_dict / _parse_response conforms at run time to the annotation of the attribute /
     return value that holds it; every value admitted by a parameter annotation (each union member, None where admitted,
     UNSET where optional) is accepted by the encoder (_get_kwargs / to_dict do not raise).
@@ -55,7 +57,7 @@ def main() -> int:
             jobs.append(j)
     for label, d in docs.typing_stress_docs():
         for le in (False, True):
-            j = run.job(d, want=["manifest"], keep=True, cfg={"literal_enums": le}, plan={"fn": "import", "args": {}})
+            j = run.job(d, want=["manifest"], keep=True, cfg={"literal_enums": le}, plan={"fn": "import_info", "args": {}})
             j["work"] = str(batch)
             info[j["id"]] = (label, {label, "le" if le else "enum"})
             jobs.append(j)
@@ -126,6 +128,21 @@ def main() -> int:
                     fl = (a["x"].get("response") or {}).get("flags") or []
                     for tp in (vr.get("type_problems") or []) if not broken_imports else []:
                         vd.violation("annotation_mismatch:class_shadows_template_import" if shadowing else "annotation_mismatch:response" + (":" + one_flag(fl) if fl else ""), f"{a['module']}.{variant}: {tp}", w)
+            elif a["a"] == "model_info":
+                for f_ in x.get("fields") or []:
+                    if f_.get("has_default"):
+                        ev.count("declared_defaults_checked_against_annotation")
+                    if f_.get("default_problem") and not broken_imports:
+                        vd.violation("default_violates_annotation:class_shadows_template_import" if shadowing else "default_violates_annotation:attribute", f"{a['cls']}.{f_['name']}: default {f_.get('default')} - {f_['default_problem']} (annotation {f_.get('annotation')})", w)
+            elif a["a"] == "endpoint_info":
+                for fn_, si_ in x.items():
+                    if not isinstance(si_, dict):
+                        continue
+                    for p_ in si_.get("params") or []:
+                        if p_.get("has_default"):
+                            ev.count("declared_defaults_checked_against_annotation")
+                        if p_.get("default_problem") and not broken_imports:
+                            vd.violation("default_violates_annotation:class_shadows_template_import" if shadowing else "default_violates_annotation:parameter", f"{a['module']}.{fn_}({p_['name']}): default {p_.get('default')} - {p_['default_problem']} (annotation {p_.get('annotation')})", w)
             elif a["a"] == "get_kwargs":
                 ev.count("admitted_values_encoded")
                 if x.get("exc"):
